@@ -5,7 +5,7 @@ counterexample is a minimal schedule exploiting the missing guard. Run offline (
 import json, subprocess, sys, os, hashlib
 GUARDS = ["unbindUid", "bindStaleLister", "bindUidGuard", "bindPoolSize", "bindReuseReserve", "resyncReread", "apiDoubleCheck",
           "podlock:filter", "podlock:bind", "podlock:unbind", "podlock:resync", "podlock:apirelease",
-          "dplock:filter", "dplock:unbind", "dplock:resync"]
+          "dplock:filter", "dplock:unbind", "dplock:resync", "podlock:syncall"]
 PROPS = ["LiveAnnotationsDisjoint", "LiveKeepsIP", "MemStoreAgreeM", "PoolCapM", "LiveAssignedToOwnNode",
          "StickyM", "ReleaseJustifiedM", "CloudSingleNodeM", "UnassignBeforeHandoverM", "NoUnassignWhileLiveM"]
 PLAN = [  # cfg, overrides, guards relevant
@@ -16,6 +16,8 @@ PLAN = [  # cfg, overrides, guards relevant
     ("ipam_dp_pool_q.cfg", {"MaxOps": "5"}, ["bindPoolSize", "dplock:filter", "podlock:filter", "unbindUid"]),
     ("ipam_dp_scale.cfg", {}, ["dplock:unbind", "podlock:unbind", "unbindUid", "dplock:filter", "bindReuseReserve", "bindUidGuard"]),
     ("ipam_dp_immutable_q.cfg", {"MaxOps": "5"}, ["dplock:unbind", "dplock:filter", "apiDoubleCheck", "unbindUid", "resyncReread"]),
+    # the periodic pod-ip sync without the pod lock, and the other guards with the sync running
+    ("ipam_sts_syncall_q.cfg", {}, ["podlock:syncall", "unbindUid", "bindStaleLister", "bindUidGuard"]),
 ]
 outdir = "/verif/spec/schedules"
 timeout = os.environ.get("ATK_TIMEOUT", "600")
